@@ -376,7 +376,7 @@ class Exc:
                         site = Site(f.qual, f.file, getattr(node, "lineno", f.line), prim, a_txt, e, a_k)
                         out.escapes.setdefault(site, set()).add(None)
 
-        flow = KindFlow(param_kinds=pk, on_expr=on_expr, call_kinds=call_kinds, class_kinds=self.class_kinds)
+        flow = KindFlow(param_kinds=pk, on_expr=on_expr, call_kinds=call_kinds, class_kinds=self.class_kinds, module_consts=f.module.assigns)
         flow.analyse(f.node)
         if _is_generator(f.node):
             out.ret = _k("O")
